@@ -115,6 +115,15 @@ def op_table():
     add("inv_quad_logdet", _pd, lambda op, A, c: op.inv_quad_logdet(A.t(c["c"], 2), logdet=True))
     add("inv_quad_logdet_noreduce", _pd, lambda op, A, c: op.inv_quad_logdet(A.t(c["c"], 2), logdet=True, reduce_inv_quad=False))
     add("logdet", _pd, lambda op, A, c: op.logdet())
+
+    # stochastic log-determinant with probe vectors assigned by the caller (deterministic_probes): the probes are caller-owned
+    def _detprobes(op, A, c, fn):
+        with env.settings.deterministic_probes(True), env.settings.num_trace_samples(4):
+            env.settings.deterministic_probes.probe_vectors = A.t(c["c"], 4)
+            return fn(op)
+
+    add("logdet_detprobes", _pd, lambda op, A, c: _detprobes(op, A, c, lambda o: o.logdet()))
+    add("inv_quad_logdet_detprobes", _pd, lambda op, A, c: _detprobes(op, A, c, lambda o: o.inv_quad_logdet(A.t(c["c"], 2), logdet=True)))
     add("sqrt_inv_matmul", _pd, lambda op, A, c: op.sqrt_inv_matmul(A.t(c["c"], 2), A.t(2, c["c"])))
     add("sqrt_inv_matmul_nolhs", _pd, lambda op, A, c: op.sqrt_inv_matmul(A.t(c["c"], 2)))
     add("diagonal", _sq, lambda op, A, c: op.diagonal())
